@@ -186,7 +186,7 @@ func collectLocs(err error) []locInfo {
 
 const (
 	exitMemoryCeiling = 97
-	memCeilingBytes   = 3 << 30   // RSS ceiling of one worker
+	memCeilingBytes   = 3 << 30 // RSS ceiling of one worker
 	// goroutine stack ceiling of pooled workers (Go's default is 1 GiB): a runaway
 	// recursion dies quickly. The confirmation run uses Go's default, so that only
 	// what kills the real tool counts (text/template gives up with an error at
